@@ -490,6 +490,38 @@ static void codec_pfor(const uint64_t *vals, size_t n) {
         varintPFORMeta em;
         memset(&em, 0, sizeof em);
         size_t wrote = 0;
+        /* the encoder's meta argument is an output: first with the analysis of ANOTHER array of the same count,
+         * percentile, minimum and exception ranks but a wider frame (every distance from the minimum x 1000), which
+         * must change nothing - neither the bytes nor the advertised size */
+        if (n <= 5000 && (M03 || M16)) {
+            uint64_t mn0 = vals[0], mx0 = vals[0];
+            for (size_t i = 1; i < n; i++) {
+                mn0 = vals[i] < mn0 ? vals[i] : mn0;
+                mx0 = vals[i] > mx0 ? vals[i] : mx0;
+            }
+            if (mx0 - mn0 < (1ULL << 40) && mn0 < (1ULL << 62)) {
+                uint64_t *twin = malloc(8 * n);
+                for (size_t i = 0; i < n; i++) {
+                    twin[i] = mn0 + (vals[i] - mn0) * 1000;
+                }
+                varintPFORMeta tm;
+                memset(&tm, 0, sizeof tm);
+                size_t w2 = 0;
+                if (varintPFORComputeThreshold(twin, (uint32_t)n, thr[t], &tm) != VARINT_WIDTH_INVALID &&
+                    LIBCALL("PFOR.Encode", "encode with the analysis of another array in the meta argument", w2 = varintPFOREncode(dst, in, (uint32_t)n, thr[t], &tm))) {
+                    if (w2 > predicted) {
+                        AFAIL("PFOR.Encode", "size_underestimate", "%s thr=%u: with the meta argument holding the analysis of another array (same count, minimum and exception ranks, wider frame) %zu bytes were written, varintPFORSize of this array's analysis is %zu", cur_desc,
+                              thr[t], w2, predicted);
+                    }
+                    if (M16 && (tm.width != cm.width || tm.min != cm.min || tm.exceptionCount != cm.exceptionCount)) {
+                        AFAIL("PFOR.Encode", "metadata_untrue", "%s thr=%u: metadata after encoding with a stale meta argument: width %d min %" PRIu64 " exceptions %u; this array's analysis: width %d min %" PRIu64 " exceptions %u", cur_desc, thr[t],
+                              (int)tm.width, tm.min, tm.exceptionCount, (int)cm.width, cm.min, cm.exceptionCount);
+                    }
+                }
+                free(twin);
+                dst = enc_dst(predicted, 19 * n + 64);
+            }
+        }
         if (!LIBCALL("PFOR.Encode", "encode", wrote = varintPFOREncode(dst, in, (uint32_t)n, thr[t], &em))) {
             continue;
         }
@@ -1491,7 +1523,9 @@ static int u32cmp_corpus(const void *a, const void *b);
 
 static void run_array(const uint64_t *v, size_t n) {
     if (M06) {
-        codec_adaptive(v, n, 0);
+        if (n <= 3100000) {
+            codec_adaptive(v, n, 0);
+        }
         return;
     }
     codec_delta(v, n);
@@ -1502,7 +1536,10 @@ static void run_array(const uint64_t *v, size_t n) {
     codec_rle(v, n);
     codec_elias(v, n);
     codec_bp128(v, n);
-    if (M03 || M13 || M16) {
+    /* the adaptive analysis sorts a 10% sample with an exchange sort (quadratic): beyond about three million elements
+     * a single call takes minutes to hours, which is a cost of the library, not a hang; the 16.7-million-element
+     * arrays therefore skip the adaptive codec */
+    if ((M03 || M13 || M16) && n <= 3100000) {
         codec_adaptive(v, n, M03);
     }
     if (M03 || M16) {
@@ -1601,6 +1638,106 @@ static void run_giant(void) {
     }
 }
 
+/* ------------------------------------------------------------------ inputs derived from the library's own constants
+ * The driver lists the 64-bit immediates of the library's machine code (hash multipliers, division magic numbers,
+ * masks). For every odd constant K the convergents p/q of K / 2^64 give the differences d = q for which d*K is closest
+ * to a multiple of 2^64 - the value pairs (x, x + d) that a multiplicative hash by K cannot tell apart in its top bits,
+ * or that straddle a step of a multiply-high division. Arrays built from such pairs (and triples) in several layouts go
+ * through every codec. */
+static void run_constant_derived(void) {
+    if (M13 || !vh_section_begin("constant-derived")) {
+        return;
+    }
+    char path[600];
+    ssize_t pl = readlink("/proc/self/exe", path, sizeof path - 32);
+    if (pl <= 0) {
+        return;
+    }
+    path[pl] = 0;
+    char *slash = strrchr(path, '/');
+    if (!slash) {
+        return;
+    }
+    strcpy(slash + 1, "lib_constants.txt");
+    FILE *f = fopen(path, "r");
+    if (!f) {
+        vh_flag("library_constants_listed", 0);
+        return;
+    }
+    vh_flag("library_constants_listed", 1);
+    uint64_t K[64];
+    int nk = 0;
+    unsigned long long kk;
+    while (nk < 64 && fscanf(f, "%llx", &kk) == 1) {
+        if (kk & 1) {
+            K[nk++] = (uint64_t)kk;
+        }
+    }
+    fclose(f);
+    vh_infostr("library_constants_odd", "%d", nk);
+    static uint64_t arr[320];
+    static char cdesc[200];
+    static const uint64_t XS[3] = {1000, 0x3c3894ad70ad8441ULL, (1ULL << 33) + 5};
+    for (int ki = 0; ki < nk; ki++) {
+        /* continued fraction of K / 2^64 */
+        __uint128_t num = K[ki], den = (__uint128_t)1 << 64;
+        uint64_t q0 = 0, q1 = 1; /* denominators of the convergents */
+        for (int it = 0; it < 80 && num != 0; it++) {
+            __uint128_t a = den / num, r = den % num;
+            __uint128_t q2 = a * q1 + q0;
+            if (q2 >> 64) {
+                break;
+            }
+            q0 = q1;
+            q1 = (uint64_t)q2;
+            den = num;
+            num = r;
+            if (q1 < 2) {
+                continue;
+            }
+            for (int mult = 1; mult <= 3; mult++) {
+                for (int xi = 0; xi < 3; xi++) {
+                    for (int layout = 0; layout < 4; layout++) {
+                        if (!vh_case()) {
+                            continue;
+                        }
+                        uint64_t d = q1 * (uint64_t)mult, A = XS[xi], B = A + d, C = A + 2 * d;
+                        size_t n;
+                        if (layout == 0) {
+                            arr[0] = A;
+                            arr[1] = B;
+                            n = 2;
+                        } else if (layout == 1) {
+                            arr[0] = B;
+                            arr[1] = A;
+                            arr[2] = B;
+                            n = 3;
+                        } else if (layout == 2) {
+                            n = 64;
+                            for (size_t i = 0; i < n; i++) {
+                                arr[i] = (i & 1) ? B : A;
+                            }
+                        } else {
+                            n = 300;
+                            for (size_t i = 0; i < n; i++) {
+                                arr[i] = i % 3 == 0 ? A : i % 3 == 1 ? B : C;
+                            }
+                            arr[127] = C;
+                            arr[128] = B;
+                        }
+                        snprintf(cdesc, sizeof cdesc, "n=%zu over {x, x+d, x+2d}: x=%" PRIu64 " d=%" PRIu64 " (%d x a convergent denominator of 0x%" PRIx64 " / 2^64), layout %d", n, A, d, mult, K[ki], layout);
+                        cur_desc = cdesc;
+                        g_in_shift = 0;
+                        run_array(arr, n);
+                        vh_count("cases", 1);
+                        vh_count("arrays_constant_derived", 1);
+                    }
+                }
+            }
+        }
+    }
+}
+
 int main(int argc, char **argv) {
     vh_init(argc, argv);
     for (int i = 1; i < argc; i++) {
@@ -1618,7 +1755,7 @@ int main(int argc, char **argv) {
         return 3;
     }
     vh_sandbox_init();
-    vh_watchdog(60); /* a library call that makes no progress for a whole period is reported as a hang */
+    vh_watchdog(300); /* a library call that makes no progress for a whole period is reported as a hang (the longest legitimate call, the adaptive analysis of 3,000,000 values, takes about 30 s) */
     size_t maxn = M13 ? (vh_thorough ? 4097 : 385) : CORPUS_MAXN;
     const char *e = getenv("VERIF_MAXN");
     if (e) {
@@ -1669,6 +1806,7 @@ int main(int argc, char **argv) {
         vh_flag("corpus_complete", complete);
     }
     corpus_end(&it);
+    run_constant_derived();
     run_giant();
     if (M06) {
         adaptive_select_sweep();
